@@ -20,6 +20,64 @@ mod tests;
 
 pub use engine::{JobKind, PPGEvaluator};
 
+/// Verification hooks (only with `--cfg tyberiusprime_pypipegraph2_verif`):
+/// re-exports the engine-private types named by `PPGEvaluatorStrategy`, so that a strategy
+/// can be written outside this crate, plus a transition log and a state snapshot.
+#[cfg(tyberiusprime_pypipegraph2_verif)]
+pub mod verif {
+    pub use crate::engine::{EdgeInfo, JobOutputResult, NodeInfo};
+    use std::cell::RefCell;
+    pub type NodeIndex = usize;
+    pub type GraphType = petgraph::graphmap::GraphMap<NodeIndex, EdgeInfo, petgraph::Directed>;
+
+    #[derive(Clone, Debug, PartialEq, Eq)]
+    pub enum VerifEvent {
+        Wave { depth: u32 },
+        Signal { kind: String, job: String },
+        Push { kind: String, job: String },
+        State { job: String, from: String, to: String },
+    }
+
+    #[derive(Clone, Debug, PartialEq, Eq)]
+    pub struct VerifJob {
+        pub job_id: String,
+        pub state: String,
+        pub history_output: Option<String>,
+        pub last_considered_in_gen: usize,
+        pub in_dag: bool,
+    }
+
+    #[derive(Clone, Debug, PartialEq, Eq)]
+    pub struct VerifSnapshot {
+        pub phase: &'static str,
+        pub jobs: Vec<VerifJob>,
+        pub edges: Vec<(String, String, String, String)>,
+        pub ready: Vec<String>,
+        pub cleanup: Vec<String>,
+        pub queue: Vec<(String, String)>,
+        pub gen: usize,
+    }
+
+    thread_local! {
+        static LOG: RefCell<(bool, Vec<VerifEvent>)> = RefCell::new((false, Vec::new()));
+    }
+    /// off unless a harness turns it on
+    pub fn set_logging(on: bool) {
+        LOG.with(|l| l.borrow_mut().0 = on);
+    }
+    pub fn log(ev: VerifEvent) {
+        LOG.with(|l| {
+            let mut l = l.borrow_mut();
+            if l.0 {
+                l.1.push(ev);
+            }
+        });
+    }
+    pub fn drain_log() -> Vec<VerifEvent> {
+        LOG.with(|l| l.borrow_mut().1.drain(..).collect())
+    }
+}
+
 static LOGGER_INIT: Once = Once::new();
 
 #[derive(Error, Debug)]
